@@ -674,7 +674,7 @@ func TestC10Close(t *testing.T) {
 func TestC10Partial(t *testing.T) {
 	stats.ScaledChecks(4, 5, func() {
 		rapid.Check(t, func(t *rapid.T) {
-			target := rapid.SampledFrom([]string{"listener", "dialer", "pipeA", "pipeB", "context", "pipeFromAttachingHook", "pipeFromAttachedHook"}).Draw(t, "target")
+			target := rapid.SampledFrom([]string{"listener", "dialer", "pipeA", "pipeB", "context", "pipeFromAttachingHook", "pipeFromAttachedHook", "loserOfAddressConflict"}).Draw(t, "target")
 			tr := rapid.SampledFrom([]string{"inproc", "tcp", "ipc", "ws"}).Draw(t, "transport")
 			doc := map[string]interface{}{"test": "TestC10Partial", "target": target, "transport": tr, "rseed": os.Getenv("VERIF_RSEED")}
 			fail := func(k, f string, a ...interface{}) {
@@ -797,6 +797,33 @@ func TestC10Partial(t *testing.T) {
 					}
 				case <-time.After(2 * prompt):
 					t.Fatalf("harness: the third peer's connection never reached the callback")
+				}
+			}
+			if target == "loserOfAddressConflict" {
+				// another socket tries to listen on S's address, is refused, and is closed again
+				// (its listener, or the whole socket): S's own listener is a different object
+				X := fixture.New("bus")
+				xl, err := X.NewListener(addrS, fixture.ListenOpts(tr))
+				if err != nil {
+					t.Fatalf("harness: %v", err)
+				}
+				if err := xl.Listen(); err == nil {
+					fail("address-shared", "a second socket could listen on %s while the first still does", addrS)
+					_ = X.Close()
+					return
+				}
+				if rapid.Bool().Draw(t, "closeWholeSocket") {
+					_ = X.Close()
+				} else {
+					_ = xl.Close()
+					defer X.Close()
+				}
+				C := fixture.New("bus")
+				defer C.Close()
+				cev := fixture.Hook(C)
+				if _, err := fixture.Dial(C, addrS); err != nil || !cev.WaitAttached(1, prompt) {
+					fail("sibling-broken", "after a socket that had failed to listen on the same address was closed, a new peer cannot connect to the listener that owns it: %v", err)
+					return
 				}
 			}
 			var cerr error
